@@ -12,12 +12,14 @@ EXTENDS LimitReader, TruncWriter, Sequences, Json
 
 Trace == ndJsonDeserialize("io_trace.ndjson")
 
-VARIABLE l
-tvars == <<rvars, wvars, l>>
+VARIABLES l,
+          ddst,    \* reader driver modes: stream offset up to which the driver's destination has received data
+          wpend    \* writer driver modes: bytes supplied by the source and not yet written through
+tvars == <<rvars, wvars, l, ddst, wpend>>
 
 TInit == /\ RNew(0, 0) /\ rsteps = 0
          /\ WNew(0) /\ wsteps = 0
-         /\ l = 1
+         /\ l = 1 /\ ddst = 0 /\ wpend = 0
 
 Ev == Trace[l]
 
@@ -37,22 +39,71 @@ WObsOK(e) == /\ wlast'.called = e.called
 TNewR == /\ Ev.op = "newr"
          /\ lim' = Ev.lim /\ rem' = Ev.lim /\ slen' = Ev.slen
          /\ pos' = 0 /\ dl' = 0 /\ rlast' = NoRead
-         /\ UNCHANGED wvars
+         /\ ddst' = 0
+         /\ UNCHANGED <<wvars, wpend>>
 TRead == /\ Ev.op = "read"
          /\ (ReadLimit(Ev.buf) \/ ReadThrough(Ev.buf, Ev.k, Ev.rerr))
          /\ RObsOK(Ev)
-         /\ UNCHANGED wvars
+         /\ ddst' = dl'                     \* a direct Read hands its bytes to the caller
+         /\ UNCHANGED <<wvars, wpend>>
 TNewW == /\ Ev.op = "neww"
          /\ wlim' = Ev.lim /\ off' = 0 /\ total' = 0 /\ fwd' = 0 /\ wlast' = NoWrite
-         /\ UNCHANGED rvars
+         /\ wpend' = 0
+         /\ UNCHANGED <<rvars, ddst>>
 TWrite == /\ Ev.op = "write"
+          /\ wpend = 0
           /\ (WriteDropped(Ev.len) \/ WriteForward(Ev.len, Ev.j, Ev.werr))
           /\ WObsOK(Ev)
-          /\ UNCHANGED rvars
+          /\ UNCHANGED <<rvars, ddst, wpend>>
+
+(* --- reader driven through io.Copy / CopyBuffer / CopyN / ReadAll / optional interfaces *)
+(* a request that reached r during the driver call *)
+TDrvReq == /\ Ev.op = "rreq"
+           /\ DriverRead(Ev.req, Ev.k, Ev.rerr)
+           /\ UNCHANGED <<wvars, ddst, wpend>>
+(* the driver's destination received Ev.len bytes sitting at stream offset    *)
+(* Ev.from: they must be the next bytes of r's stream and bytes the reader    *)
+(* has actually delivered.                                                    *)
+TDrvDst == /\ Ev.op = "dst"
+           /\ Ev.from = ddst
+           /\ ddst + Ev.len <= dl
+           /\ ddst' = ddst + Ev.len
+           /\ UNCHANGED <<rvars, wvars, wpend>>
+(* the driver call returned: a limit error only with Limit = n and only once  *)
+(* n bytes have been delivered; whatever was delivered and not passed on is   *)
+(* dropped by the driver.                                                     *)
+TDrvRet == /\ Ev.op = "dret"
+           /\ (Ev.err = "Limit" => (Ev.elim = lim /\ dl = lim))
+           /\ ddst' = dl
+           /\ UNCHANGED <<rvars, wvars, wpend>>
+
+(* --- writer driven through io.Copy / WriteString / Fprintf / optional interfaces *)
+TSupply == /\ Ev.op = "supply"
+           /\ Supply(Ev.len)
+           /\ wpend' = wpend + Ev.len
+           /\ UNCHANGED <<rvars, ddst, wsteps>>
+TWCall == /\ Ev.op = "wcall"
+          /\ ForwardPending(wpend, Ev.j, Ev.werr)
+          /\ wlast'.req = Ev.req
+          /\ (Ev.req > 0 => wlast'.from = Ev.from)
+          /\ wpend' = 0
+          /\ UNCHANGED <<rvars, ddst, wsteps>>
+(* the driver returned: everything supplied went through (or was dropped      *)
+(* because the limit is used up), all of it is reported as written, w's error *)
+(* is the driver's.                                                           *)
+TCRet == /\ Ev.op = "cret"
+         /\ (Ev.err = "nil" => (wpend = 0 \/ wlim - off = 0))
+         /\ (Ev.err = "nil" => Ev.n = Ev.len)
+         /\ (Ev.err \notin {"nil"} => Ev.err = wlast.err)
+         /\ wpend' = 0
+         /\ UNCHANGED <<rvars, wvars, ddst>>
 
 TNext == /\ l <= Len(Trace)
          /\ l' = l + 1
-         /\ (TNewR \/ TRead \/ TNewW \/ TWrite)
+         /\ (TNewR \/ TRead \/ TNewW \/ TWrite \/ TDrvReq \/ TDrvDst \/ TDrvRet \/ TSupply \/ TWCall \/ TCRet)
          /\ UNCHANGED <<rsteps, wsteps>>
+(* ForwardedPrefix while data supplied by a driver is still on its way. *)
+TForwardedPrefix == (wpend = 0 \/ wlim - off = 0) => fwd = Min(total, wlim)
+
 TSpec == TInit /\ [][TNext]_tvars
 =============================================================================
